@@ -11,6 +11,7 @@ import Pff.Model.DupDb
 import Pff.Model.Rfigc
 import Pff.Model.Ecc
 import Pff.Model.Entry
+import Pff.Model.Run
 /-!
 Line-protocol driver: one request per line on stdin, one canonical reply per line on stdout.
 Run with `lake env lean --run Pff/Driver.lean`. Byte strings are hex ("-" = empty); lists of
@@ -210,8 +211,41 @@ def parseParts (t : String) : Option Pff.Entry.EntryParts :=
     some { path := (← parseHex a), sizeTxt := (← parseHex b), pathEcc := (← parseHex c), sizeEcc := (← parseHex d), track := (← parseHex e) }
   | _ => none
 
+/-! ### whole correction run -/
+
+def parseFS (toks : List String) : Option Pff.Run.FS :=
+  toks.mapM (fun t => match t.splitOn ":" with
+    | [p, c] => do some ((← parseHex p), (← parseHex c))
+    | _ => none)
+
+def showEffect : Pff.Run.Effect → String
+  | .none => "n"
+  | .wrote b => s!"w{toHex b}"
+  | .removed => "r"
+
+def showRun (r : Pff.Run.RunResult) : String :=
+  let c := Pff.Run.counters r
+  let outs := (Pff.Run.outputs r).map (fun e => s!"{toHex e.1}:{toHex e.2}")
+  let sorted := outs.toArray.qsort (· < ·) |>.toList
+  let o := if sorted.isEmpty then "-" else ",".intercalate sorted
+  s!"{Pff.Run.exitOf r} {c.1} {c.2.1} {c.2.2.1} {c.2.2.2.1} {c.2.2.2.2} {o}"
+
 def handle (toks : List String) : String :=
   match toks with
+  | "eccrun" :: tool :: fast :: thr :: hl :: mbs :: hdr :: kmain :: kintra :: ign :: r1 :: r2 :: r3 :: stream :: rest =>
+    -- rest = FS ; HT ; CT ; DT
+    match thr.toNat?, hl.toNat?, mbs.toNat?, hdr.toNat?, kmain.toNat?, kintra.toNat?, parseFloatBits r1, parseFloatBits r2, parseFloatBits r3,
+          parseHex stream, splitAll ";" rest with
+    | some thr, some hl, some mbs, some hdr, some kmain, some kintra, some r1, some r2, some r3, some stream, [fs, ht, ct, dt] =>
+      match parseFS fs, parseHTab ht, parseCTab ct, parseDTab dt with
+      | some fs, some ht, some ct, some dt =>
+        let P : Pff.Run.Params :=
+          { tool := if tool == "h" then .header else .whole, fast := fast == "1", thr := thr, hashLen := hl, mbs := mbs,
+            headerSize := hdr, kMain := kmain, kOfFor := fun size => Pff.Layout.kOfFloatRead mbs hdr size r1 r2 r3,
+            kIntra := kintra, ignoreSize := ign == "1" }
+        showRun (Pff.Run.run (opsOfTables ht ct dt) P fs stream)
+      | _, _, _, _ => "bad-op"
+    | _, _, _, _, _, _, _, _, _, _, _ => "bad-op"
   | ["efields", e] =>
     match parseHex e with
     | some e =>
@@ -271,7 +305,7 @@ def handle (toks : List String) : String :=
       match parseHTab ht, parseCTab ct, parseDTab dt with
       | some ht, some ct, some dt =>
         showFileResult (Pff.Ecc.correctWholeFile (opsOfTables ht ct dt) (fast == "1") thr
-          (Pff.Layout.kOfFloat mbs hdr rs r1 r2 r3) hl mbs c t)
+          (Pff.Layout.kOfFloatRead mbs hdr rs r1 r2 r3) hl mbs c t)
       | _, _, _ => "bad-op"
     | _, _, _, _, _, _, _, _, _, _, _ => "bad-op"
   | "rfcheck" :: m :: sm :: sh :: inp :: rest =>
